@@ -228,9 +228,7 @@ func localeRuns(tw *trace.Writer) (int, error) {
 					bytesIn = append(bytesIn, b...)
 				}
 			}
-			for s.HasPendingEvent() {
-				s.PollEvent()
-			}
+			drainPending(s, "text", nil, nil)
 			tty.Inject(bytesIn)
 			var got []rune
 			deadline := time.After(2 * time.Second)
